@@ -210,6 +210,21 @@ func runC16(c *Ctx) {
 				}
 				return false, false
 			}, cut, 0)
+			// the answer may flow into a joined flag (skip := a || b) instead of being branched on: the incoming edge
+			// that carries it stands for the test
+			for _, i := range ssau.Ifs(f) {
+				base, _ := ssau.StripNot(i.Cond)
+				phi, ok := base.(*ssa.Phi)
+				if !ok || phi.Block() != i.Block() {
+					continue
+				}
+				for k, e := range phi.Edges {
+					if cl, ok := e.(*ssa.Call); ok && has(&cl.Call) {
+						cut.AddEdge(phi.Block().Preds[k], phi.Block())
+						nh++
+					}
+				}
+			}
 			r := ssau.ReachFromEntry(f, cut)
 			bad := ""
 			for _, ret := range ssau.Returns(f) {
@@ -380,6 +395,32 @@ func runC17(c *Ctx) {
 			}
 		}
 		addAnon(ct)
+		// helpers of the package that the transaction callback hands the leveldb transaction to
+		seenF := map[*ssa.Function]bool{}
+		for _, f := range fns {
+			seenF[f] = true
+		}
+		for i := 0; i < len(fns) && i < 64; i++ {
+			for _, b := range fns[i].Blocks {
+				for _, in := range b.Instrs {
+					if ci, ok := in.(ssa.CallInstruction); ok {
+						if g := ci.Common().StaticCallee(); g != nil && g.Pkg == ct.Pkg && !seenF[g] && len(g.Blocks) > 0 && g.Name() != "updateDB" {
+							takesTx := false
+							for _, prm := range g.Params {
+								if strings.HasSuffix(prm.Type().String(), "leveldb.Transaction") {
+									takesTx = true
+								}
+							}
+							if takesTx {
+								seenF[g] = true
+								fns = append(fns, g)
+								addAnon(g)
+							}
+						}
+					}
+				}
+			}
+		}
 		nTx, bad := 0, ""
 		for _, f := range fns {
 			for _, b := range f.Blocks {
@@ -613,7 +654,7 @@ func runC17(c *Ctx) {
 		okLoop := false
 		okDel := false
 		for _, i := range ssau.Ifs(hr) {
-			if !strings.HasSuffix(i.Block().Comment, ".loop") {
+			if !strings.HasSuffix(blockComment(i), ".loop") {
 				continue
 			}
 			b, ok := i.Cond.(*ssa.BinOp)
@@ -720,7 +761,7 @@ func runC17(c *Ctx) {
 			env.B["create"] = false
 			env.B["errNil"] = true
 			res := ssau.AbsWalk(rd, ssau.AbsEnvFunc(func(i *ssa.If, visit int) (bool, bool) {
-				return syms.evalCond(i.Cond, env, visit, i.Block().Comment)
+				return syms.evalCond(i.Cond, env, visit, blockComment(i))
 			}))
 			if res.Ret == nil {
 				okAll = false
@@ -790,6 +831,19 @@ func precedes(a ssa.Instruction, b ssa.Instruction) bool {
 func runC18(c *Ctx) {
 	c.R.Rule("A-evict", "blockStore.openFile, when it closes the least recently used block file, removes exactly that file from both bookkeeping maps: the key deleted from openBlockFiles and from fileNumToLRUElem is the key under which the closed file was looked up (otherwise a closed handle stays cached and every later read of that file fails)")
 	if of := c.fn(ffl, "blockStore", "openFile"); of != nil {
+		// the eviction step may be a method of the store that openFile calls
+		of = c.relocateBy(of, func(g *ssa.Function) bool {
+			for _, b := range g.Blocks {
+				for _, in := range b.Instrs {
+					if ci, ok := in.(ssa.CallInstruction); ok {
+						if bi, ok := ci.Common().Value.(*ssa.Builtin); ok && bi.Name() == "delete" && ssau.IsFieldOf(ssau.Unwrap(ci.Common().Args[0]), "blockStore", "openBlockFiles") {
+							return true
+						}
+					}
+				}
+			}
+			return false
+		})
 		var closedKey ssa.Value
 		for _, call := range ssau.CallsIn(of, namedCall("Close")) {
 			// file.Close() of openBlockFiles[K].file
